@@ -54,6 +54,11 @@ def parse_routes(cell, w, vw):
         'load_dict': lambda: Builder().store_dict(cell).end_cell().begin_parse().load_dict(w),
         'preload_dict': lambda: Builder().store_dict(cell).end_cell().begin_parse().preload_dict(w),
         'load_hashmap': lambda: cell.begin_parse().load_hashmap(w),
+        # a caller-supplied key deserializer is handed the key as a bit string of the full key width
+        'parse_key_deserializer': lambda: {(int(k, 2) if len(k) == w else (1 << w) + len(k)): v for k, v in
+                                           HashMap.parse(cell.begin_parse(), w, key_deserializer=lambda b: b).items()},
+        'load_dict_key_deserializer': lambda: {(int(k, 2) if len(k) == w else (1 << w) + len(k)): v for k, v in
+                                               Builder().store_dict(cell).end_cell().begin_parse().load_dict(w, key_deserializer=lambda b: b).items()},
         'load_maybe_ref': lambda: HashMap.parse(Builder().store_maybe_ref(cell).end_cell().begin_parse().load_maybe_ref().begin_parse(), w),
     }
     # a peek does not consume: peek twice, then load, on a slice that holds another reference after the dictionary
